@@ -49,6 +49,8 @@ pub fn source_case(em: &mut Emitter, rng: &mut Rng, mode: u8, ps: &[Prog], data:
             3 => observe(mode, ps, FlexSource::new(data, Policy::Exact, None), |s| s.left()),
             4 => observe(mode, ps, FlexSource::new(data, Policy::Chunk((param % 9 + 1) as usize), None), |s| s.left()),
             5 => observe(mode, ps, FlexSource::new(data, Policy::Random(param), None), |s| s.left()),
+            8 => observe(mode, ps, FlexSource::read_ahead(data, Policy::Exact, (param % 5 + 1) as usize), |s| s.left()),
+            9 => observe(mode, ps, FlexSource::read_ahead(data, Policy::Chunk((param % 4 + 1) as usize), 64), |s| s.left()),
             6 => { use bcder::decode::IntoSource; let os = bcder::OctetString::new(bytes::Bytes::copy_from_slice(data)); observe(mode, ps, os.into_source(), |s| drain(s)) }
             _ => { use bcder::decode::IntoSource; let os = take_os(0, Tag::OCTET_STRING, seg.as_ref().unwrap()).expect("valid segmentation"); observe(mode, ps, os.into_source(), |s| drain(s)) }
         };
@@ -87,7 +89,7 @@ pub fn run(em: &mut Emitter, rng: &mut Rng, thorough: bool) {
         let mut data = wrap(ctx, &inner);
         if rng.chance(1, 4) { data = mutate(rng, &data); }
         let ps = in_ctx(ctx, random_program(rng, forest.len()));
-        for kind in 0..8u8 { source_case(em, rng, mode, &ps, &data, kind); }
+        for kind in 0..10u8 { source_case(em, rng, mode, &ps, &data, kind); }
     }
     run_grants(em, rng, thorough);
     // typed leaves with two-octet peeks (INTEGER check_head) under exact grants
@@ -96,7 +98,7 @@ pub fn run(em: &mut Emitter, rng: &mut Rng, thorough: bool) {
         let mut data = vec![0x02, n as u8]; data.extend(&c); data.extend_from_slice(&[0x05, 0x00]);
         let ps = vec![Prog::Take { opt: true, kind: 1, exp: Some((0, 2)), body: Body::Typed(rng.below(10) as u8) }, Prog::ReadAll];
         let m = rng.below(3) as u8;
-        for kind in 0..8u8 { source_case(em, rng, m, &ps, &data, kind); }
+        for kind in 0..10u8 { source_case(em, rng, m, &ps, &data, kind); }
     }
 }
 
